@@ -8,79 +8,94 @@ Open Scope N_scope.
 (* lock step: same history, fault still ahead (or due now) *)
 Definition sim (i : N) (wf w0 : wtr) : Prop :=
   wt_failed wf = false /\ wt_peer wf = wt_peer w0 /\ wt_calls wf = wt_calls w0 /\ wt_calls wf <= i /\
-  wt_failat wf = Some i /\ intact w0.
+  wt_failat wf = Some i /\ N.of_nat (length (wt_peer wf)) = wt_calls wf /\ intact w0.
 (* the fault has hit: the faulty transport is broken, the fault-free run is past call i *)
+(* ... and the peer holds the first i writes of the fault-free run and the accepted part of write i *)
+Definition hit_peer (i : N) (wf w0 : wtr) : Prop :=
+  exists pre p post, rev (wt_peer w0) = pre ++ p :: post /\ N.of_nat (length pre) = i /\
+    rev (wt_peer wf) = pre ++ [firstn (N.to_nat (accepted (wt_m wf) (wt_term wf) p)) p].
 Definition broken (i : N) (wf w0 : wtr) : Prop :=
-  wt_failed wf = true /\ i < wt_calls w0 /\ intact w0.
+  wt_failed wf = true /\ i < wt_calls w0 /\ hit_peer i wf w0 /\ intact w0.
 
 Lemma wt_write_sim i p wf w0 : sim i wf w0 ->
   let '(mf, ef, wf') := wt_write p wf in
   let '(m0, e0, w0') := wt_write p w0 in
   (sim i wf' w0' /\ mf = m0 /\ ef = e0 /\ ef = None /\ mf = lenN p) \/ broken i wf' w0'.
 Proof.
-  unfold sim, broken, intact. intros (Hf & Hp & Hc & Hle & Ha & Ha0 & Hf0). unfold wt_write. rewrite Hf, Hf0, Ha, Ha0.
+  unfold sim, broken, intact. intros (Hf & Hp & Hc & Hle & Ha & Hlen & Ha0 & Hf0). unfold wt_write. rewrite Hf, Hf0, Ha, Ha0.
   destruct (N.eqb_spec i (wt_calls wf)) as [E|E].
-  - rewrite split_at_spec. cbn beta iota zeta. right. cbn. repeat split; try reflexivity. rewrite <- Hc. lia.
+  - rewrite split_at_spec. cbn beta iota zeta. right. cbn [wt_failed wt_calls wt_failat]. split; [reflexivity|].
+    split; [lia|]. split; [|split; reflexivity].
+    exists (rev (wt_peer w0)), p, []. cbn [wt_peer wt_m wt_term rev]. rewrite rev_length, <- Hp. split; [reflexivity|].
+    split; [lia|]. fold (accepted (wt_m wf) (wt_term wf) p). reflexivity.
   - cbn beta iota zeta. left. cbn. repeat split; try reflexivity; try congruence; try lia.
 Qed.
 
 Lemma wt_write_frozen p w : wt_failed w = true -> snd (wt_write p w) = w.
 Proof. intros H. now rewrite wt_write_failed. Qed.
 
-Lemma wt_write_intact_calls p w : intact w ->
-  intact (snd (wt_write p w)) /\ wt_calls w <= wt_calls (snd (wt_write p w)).
+(* the fault-free side only moves forward: more calls, the peer's list of writes only grows *)
+Definition fwd (w w' : wtr) : Prop :=
+  intact w' /\ wt_calls w <= wt_calls w' /\ exists more, rev (wt_peer w') = rev (wt_peer w) ++ more.
+Lemma fwd_refl w : intact w -> fwd w w.
+Proof. intros H. split; [exact H|]. split; [lia|]. exists []. now rewrite app_nil_r. Qed.
+Lemma fwd_trans a b c : fwd a b -> fwd b c -> fwd a c.
 Proof.
-  intros H. destruct (wt_write_intact p w H) as (w' & E & H'). rewrite E. cbn [snd]. split; [exact H'|].
-  unfold wt_write in E. destruct H as [Ha Hf]. rewrite Hf, Ha in E. injection E as <-. cbn. lia.
+  intros (_ & H1 & m1 & E1) (H2 & H3 & m2 & E2). split; [exact H2|]. split; [lia|].
+  exists (m1 ++ m2). now rewrite E2, E1, app_assoc.
+Qed.
+
+Lemma wt_write_fwd p w : intact w -> fwd w (snd (wt_write p w)).
+Proof.
+  intros H. destruct (wt_write_intact p w H) as (w' & E & H'). rewrite E. cbn [snd].
+  unfold wt_write in E. destruct H as [Ha Hf]. rewrite Hf, Ha in E. injection E as <-.
+  split; [exact H'|]. split; [cbn; lia|]. exists [p]. reflexivity.
 Qed.
 
 (* ---------- monotonicity of the two sides once they have diverged ---------- *)
 (* a writer over a broken transport never touches it again *)
-Lemma bw_flush_frozen b : wt_failed (bw_under b) = true -> wt_failed (bw_under (snd (bw_flush b))) = true.
+Lemma bw_flush_frozen b : wt_failed (bw_under b) = true -> bw_under (snd (bw_flush b)) = bw_under b.
 Proof.
-  intros H. unfold bw_flush. destruct (bw_err b); [exact H|]. destruct (bw_n b =? 0); [exact H|].
-  rewrite wt_write_failed by exact H. cbn beta iota zeta. rewrite split_at_spec. exact H.
+  intros H. unfold bw_flush. destruct (bw_err b); [reflexivity|]. destruct (bw_n b =? 0); [reflexivity|].
+  rewrite wt_write_failed by exact H. cbn beta iota zeta. rewrite split_at_spec. reflexivity.
 Qed.
 
 Lemma bw_write_go_frozen fuel : forall p b, wt_failed (bw_under b) = true ->
-  wt_failed (bw_under (snd (bw_write_go fuel p b))) = true.
+  bw_under (snd (bw_write_go fuel p b)) = bw_under b.
 Proof.
-  induction fuel as [|f IH]; intros p b H; cbn [bw_write_go]; [exact H|].
-  destruct (bw_err b); [exact H|]. destruct (bw_avail b <? lenN p); [|exact H].
+  induction fuel as [|f IH]; intros p b H; cbn [bw_write_go]; [reflexivity|].
+  destruct (bw_err b); [reflexivity|]. destruct (bw_avail b <? lenN p); [|reflexivity].
   destruct (bw_n b =? 0).
-  - rewrite wt_write_failed by exact H. rewrite split_at_spec. apply IH. exact H.
+  - rewrite wt_write_failed by exact H. rewrite split_at_spec. rewrite IH; [reflexivity|exact H].
   - rewrite split_at_spec. set (b1 := mk_bufw _ _ _ _).
-    pose proof (bw_flush_frozen b1 H) as H1. destruct (bw_flush b1) as [o b2]. apply IH. exact H1.
+    pose proof (bw_flush_frozen b1 H) as H1. destruct (bw_flush b1) as [o b2]. cbn [snd] in H1.
+    rewrite IH; [exact H1|]. rewrite H1. exact H.
 Qed.
 
 Lemma bw_copies_frozen ps : forall b, wt_failed (bw_under b) = true ->
-  wt_failed (bw_under (snd (bw_copies ps b))) = true.
+  bw_under (snd (bw_copies ps b)) = bw_under b.
 Proof.
-  induction ps as [|p ps IH]; intros b H; cbn [bw_copies]; [exact H|].
-  assert (H1 : wt_failed (bw_under (snd (bw_copy_bytes p b))) = true).
-  { unfold bw_copy_bytes. destruct p; [exact H|]. apply bw_write_go_frozen. exact H. }
-  destruct (bw_copy_bytes p b) as [[e|] b1]; [exact H1|]. now apply IH.
+  induction ps as [|p ps IH]; intros b H; cbn [bw_copies]; [reflexivity|].
+  assert (H1 : bw_under (snd (bw_copy_bytes p b)) = bw_under b).
+  { unfold bw_copy_bytes. destruct p; [reflexivity|]. apply bw_write_go_frozen. exact H. }
+  destruct (bw_copy_bytes p b) as [[e|] b1]; [exact H1|]. cbn [snd] in *.
+  rewrite IH; [exact H1|]. rewrite H1. exact H.
 Qed.
 
 Lemma message_frozen o b : wt_failed (bw_under b) = true ->
-  wt_failed (bw_under (snd (rtmp_write_message o b))) = true.
+  bw_under (snd (rtmp_write_message o b)) = bw_under b.
 Proof.
   intros H. unfold rtmp_write_message. pose proof (bw_copies_frozen o b H) as Hc.
-  destruct (bw_copies o b) as [[e|] b1]; [exact Hc|]. apply bw_flush_frozen. exact Hc.
+  destruct (bw_copies o b) as [[e|] b1]; [exact Hc|]. cbn [snd] in *.
+  rewrite bw_flush_frozen; [exact Hc|]. rewrite Hc. exact H.
 Qed.
-
-(* the fault-free side only moves forward *)
-Definition fwd (w w' : wtr) : Prop := intact w' /\ wt_calls w <= wt_calls w'.
-Lemma fwd_refl w : intact w -> fwd w w. Proof. intros H. split; [exact H|lia]. Qed.
-Lemma fwd_trans a b c : fwd a b -> fwd b c -> fwd a c.
-Proof. intros [_ H1] [H2 H3]. split; [exact H2|lia]. Qed.
 
 Lemma bw_flush_fwd b : intact (bw_under b) -> fwd (bw_under b) (bw_under (snd (bw_flush b))).
 Proof.
   intros H. unfold bw_flush. destruct (bw_err b); [now apply fwd_refl|]. destruct (bw_n b =? 0); [now apply fwd_refl|].
-  pose proof (wt_write_intact_calls (bw_buf b) (bw_under b) H) as [H1 H2].
+  pose proof (wt_write_fwd (bw_buf b) (bw_under b) H) as H1.
   destruct (wt_write (bw_buf b) (bw_under b)) as [[m oe] u']. cbn [snd] in *.
-  destruct oe; [|destruct (m <? bw_n b)]; try rewrite split_at_spec; split; assumption.
+  destruct oe; [|destruct (m <? bw_n b)]; try rewrite split_at_spec; exact H1.
 Qed.
 
 Lemma bw_write_go_fwd fuel : forall p b, intact (bw_under b) ->
@@ -89,9 +104,9 @@ Proof.
   induction fuel as [|f IH]; intros p b H; cbn [bw_write_go]; [now apply fwd_refl|].
   destruct (bw_err b); [now apply fwd_refl|]. destruct (bw_avail b <? lenN p); [|now apply fwd_refl].
   destruct (bw_n b =? 0).
-  - pose proof (wt_write_intact_calls p (bw_under b) H) as [H1 H2].
+  - pose proof (wt_write_fwd p (bw_under b) H) as H1.
     destruct (wt_write p (bw_under b)) as [[m oe] u']. cbn [snd] in *. rewrite split_at_spec.
-    eapply fwd_trans; [split; [exact H1|exact H2]|]. apply (IH _ (mk_bufw (bw_rev b) (bw_n b) oe u')). exact H1.
+    eapply fwd_trans; [exact H1|]. apply (IH _ (mk_bufw (bw_rev b) (bw_n b) oe u')). apply H1.
   - rewrite split_at_spec. set (b1 := mk_bufw _ _ _ _).
     pose proof (bw_flush_fwd b1 H) as H1. destruct (bw_flush b1) as [o b2]. cbn [snd] in H1.
     eapply fwd_trans; [exact H1|]. apply IH. apply H1.
@@ -124,8 +139,12 @@ Proof. intros H. apply H. Qed.
 Lemma simb_not_broken i bf b0 : simb i bf b0 -> wt_failed (bw_under bf) = false.
 Proof. intros (_ & _ & _ & H). apply H. Qed.
 
-Lemma broken_step i wf wf' w0 w0' : broken i wf w0 -> wt_failed wf' = true -> fwd w0 w0' -> broken i wf' w0'.
-Proof. intros (_ & Hc & _) Hf [Hi Hle]. split; [exact Hf|]. split; [lia|exact Hi]. Qed.
+Lemma broken_step i wf w0 w0' : broken i wf w0 -> fwd w0 w0' -> broken i wf w0'.
+Proof.
+  intros (Hf & Hc & (pre & p & post & E1 & E2 & E3) & _) (Hi & Hle & more & Em).
+  split; [exact Hf|]. split; [lia|]. split; [|exact Hi].
+  exists pre, p, (post ++ more). rewrite Em, E1, <- app_assoc. auto.
+Qed.
 
 Lemma flush_rb i bf b0 : rb i bf b0 ->
   rb i (snd (bw_flush bf)) (snd (bw_flush b0)) /\
@@ -153,9 +172,8 @@ Proof.
         destruct Hbr as (Hf' & _).
         destruct ef as [e1|]; try destruct (mf <? bw_n b0); rewrite ?split_at_spec in Hsb; cbn [snd bw_under] in Hsb; congruence.
   - split.
-    + right. pose proof Hb as (Hf & Hc & Hi).
-      apply (broken_step i (bw_under bf) _ (bw_under b0)); [exact Hb|now apply bw_flush_frozen|now apply bw_flush_fwd].
-    + intros Hsb. apply simb_not_broken in Hsb. rewrite bw_flush_frozen in Hsb by apply Hb. discriminate.
+    + right. rewrite (bw_flush_frozen bf) by apply Hb. apply (broken_step i _ _ _ Hb). apply bw_flush_fwd, Hb.
+    + intros Hsb. apply simb_not_broken in Hsb. rewrite bw_flush_frozen in Hsb by apply Hb. destruct Hb; congruence.
 Qed.
 
 Definition agree (i : N) (rf r0 : option N * bufw) : Prop :=
@@ -163,11 +181,11 @@ Definition agree (i : N) (rf r0 : option N * bufw) : Prop :=
 
 Lemma agree_broken i (rf r0 : option N * bufw) bf b0 :
   broken i (bw_under bf) (bw_under b0) ->
-  wt_failed (bw_under (snd rf)) = true -> fwd (bw_under b0) (bw_under (snd r0)) -> agree i rf r0.
+  bw_under (snd rf) = bw_under bf -> fwd (bw_under b0) (bw_under (snd r0)) -> agree i rf r0.
 Proof.
   intros Hb Hf Hw. split.
-  - right. apply (broken_step i _ _ _ _ Hb Hf Hw).
-  - intros Hs. apply simb_not_broken in Hs. congruence.
+  - right. rewrite Hf. apply (broken_step i _ _ _ Hb Hw).
+  - intros Hs. apply simb_not_broken in Hs. rewrite Hf in Hs. destruct Hb; congruence.
 Qed.
 
 Lemma write_go_rb i fuel : forall p bf b0, rb i bf b0 ->
@@ -219,8 +237,8 @@ Proof.
       * split; [left; exact Hs|reflexivity].
       * apply IH. left. exact Hs.
     + (* diverged inside this piece *)
-      assert (Hff : wt_failed (bw_under (snd (bw_copies (p :: ps) bf))) = true).
-      { cbn [bw_copies]. destruct (bw_copy_bytes p bf) as [[e|] b1f]; cbn [snd] in *; [apply Hb|].
+      assert (Hff : bw_under (snd (bw_copies (p :: ps) bf)) = bw_under (snd (bw_copy_bytes p bf))).
+      { cbn [bw_copies]. destruct (bw_copy_bytes p bf) as [[e|] b1f]; cbn [snd] in *; [reflexivity|].
         apply bw_copies_frozen. apply Hb. }
       assert (Hfw : fwd (bw_under (snd (bw_copy_bytes p b0))) (bw_under (snd (bw_copies (p :: ps) b0)))).
       { cbn [bw_copies]. destruct (bw_copy_bytes p b0) as [[e|] b10]; cbn [snd] in *; [apply fwd_refl, Hb|].
@@ -237,8 +255,8 @@ Proof.
     cbn [fst snd] in *. subst o0. destruct of as [e|].
     + split; [left; exact Hs|reflexivity].
     + apply flush_rb. left. exact Hs.
-  - assert (Hff : wt_failed (bw_under (snd (rtmp_write_message o bf))) = true).
-    { unfold rtmp_write_message. destruct (bw_copies o bf) as [[e|] b1f]; cbn [snd] in *; [apply Hb|].
+  - assert (Hff : bw_under (snd (rtmp_write_message o bf)) = bw_under (snd (bw_copies o bf))).
+    { unfold rtmp_write_message. destruct (bw_copies o bf) as [[e|] b1f]; cbn [snd] in *; [reflexivity|].
       apply bw_flush_frozen. apply Hb. }
     assert (Hfw : fwd (bw_under (snd (bw_copies o b0))) (bw_under (snd (rtmp_write_message o b0)))).
     { unfold rtmp_write_message. destruct (bw_copies o b0) as [[e|] b10]; cbn [snd] in *; [apply fwd_refl, Hb|].
@@ -275,7 +293,7 @@ Theorem ops_sim i ops : forall bf b0 n, simb i bf b0 -> clean bf -> bw_buf bf = 
   nf = done_before i ops b0 n /\
   match oef with
   | None => simb i bf' (snd (rtmp_write_ops ops b0 n))
-  | Some _ => i < wt_calls (bw_under (snd (rtmp_write_ops ops b0 n)))
+  | Some _ => broken i (bw_under bf') (bw_under (snd (rtmp_write_ops ops b0 n)))
   end.
 Proof.
   induction ops as [|o ops IH]; intros bf b0 n Hs Hc Hb; cbn [rtmp_write_ops done_before].
@@ -299,7 +317,7 @@ Proof.
     + destruct oef as [e|].
       * destruct (N.leb_spec (wt_calls (bw_under b01)) i) as [H|_]; [destruct Hbr as (_ & L & _); lia|].
         split; [reflexivity|].
-        pose proof (ops_fwd ops b01 (N.succ n) (proj2 (proj2 Hbr))) as [_ L]. destruct Hbr as (_ & L' & _). lia.
+        apply (broken_step i _ _ _ Hbr). apply ops_fwd. apply Hbr.
       * destruct Sf as (_ & (_ & _ & Hnf) & _). destruct Hbr as (Hf & _). congruence.
 Qed.
 
@@ -337,9 +355,9 @@ Fixpoint done_raw (i : N) (sizes : list N) (w0 : wtr) (n : N) : N :=
 Lemma copy_bytes_fwd p w : intact w -> fwd w (snd (copy_bytes p w)).
 Proof.
   intros H. unfold copy_bytes. destruct p as [|x p]; [now apply fwd_refl|].
-  pose proof (wt_write_intact_calls (x :: p) w H) as [H1 H2].
+  pose proof (wt_write_fwd (x :: p) w H) as H1.
   destruct (wt_write (x :: p) w) as [[m oe] w']. cbn [snd] in *.
-  destruct oe; [|destruct (m =? lenN (x :: p))]; split; assumption.
+  destruct oe; [|destruct (m =? lenN (x :: p))]; exact H1.
 Qed.
 
 Lemma raw_fwd sizes : forall w n, intact w -> fwd w (snd (raw_copies sizes w n)).
@@ -350,13 +368,20 @@ Proof.
   eapply fwd_trans; [exact H1|]. apply IH. apply H1.
 Qed.
 
+Lemma raw_copies_frozen sizes : forall w n, wt_failed w = true -> snd (raw_copies sizes w n) = w.
+Proof.
+  induction sizes as [|k r IH]; intros w n H; cbn [raw_copies]; [reflexivity|].
+  unfold copy_bytes. destruct (repeat 0 (N.to_nat k)) as [|x l]; [now apply IH|].
+  rewrite wt_write_failed by exact H. reflexivity.
+Qed.
+
 Theorem raw_sim i sizes : forall wf w0 n, sim i wf w0 ->
   let '(nf, ef, wf') := raw_copies sizes wf n in
   nf = done_raw i sizes w0 n /\
   fst (fst (raw_copies sizes w0 n)) = n + N.of_nat (length sizes) /\ snd (fst (raw_copies sizes w0 n)) = None /\
   match ef with
   | None => sim i wf' (snd (raw_copies sizes w0 n)) /\ nf = n + N.of_nat (length sizes)
-  | Some _ => i < wt_calls (snd (raw_copies sizes w0 n))
+  | Some _ => broken i wf' (snd (raw_copies sizes w0 n))
   end.
 Proof.
   induction sizes as [|k r IH]; intros wf w0 n Hs; cbn [raw_copies done_raw length].
@@ -374,16 +399,18 @@ Proof.
     + destruct ef as [e|]; [|congruence].
       destruct (N.leb_spec (wt_calls w01) i) as [H|_]; [destruct Hbr as (_ & L & _); lia|].
       split; [reflexivity|].
-      pose proof (raw_fwd r w01 (N.succ n) (proj2 (proj2 Hbr))) as [Hi L].
+      assert (Hi01 : intact w01) by apply Hbr.
+      pose proof (raw_fwd r w01 (N.succ n) Hi01) as Hfw.
       assert (Hfree : fst (fst (raw_copies r w01 (N.succ n))) = N.succ n + N.of_nat (length r) /\ snd (fst (raw_copies r w01 (N.succ n))) = None).
-      { clear -Hbr. destruct Hbr as (_ & _ & Hi). revert w01 n Hi. induction r as [|k r IH]; intros w n Hi; cbn [raw_copies length].
+      { clear -Hi01. revert w01 n Hi01. induction r as [|k r IH]; intros w n Hi; cbn [raw_copies length].
         - cbn. split; [lia|reflexivity].
         - pose proof (copy_bytes_intact (repeat 0 (N.to_nat k)) w Hi) as H1.
           pose proof (copy_bytes_cases (repeat 0 (N.to_nat k)) w (proj2 Hi)) as C.
           destruct (copy_bytes (repeat 0 (N.to_nat k)) w) as [[e|] w1]; cbn [snd] in H1.
           + destruct C as (_ & _ & Hf & _). destruct H1. congruence.
           + destruct (IH w1 (N.succ n) H1) as [A B]. split; [rewrite A; lia|exact B]. }
-      destruct Hfree as [A B]. split; [rewrite A; lia|]. split; [exact B|]. destruct Hbr as (_ & L' & _). lia.
+      destruct Hfree as [A B]. split; [rewrite A; lia|]. split; [exact B|].
+      apply (broken_step i _ _ _ Hbr Hfw).
 Qed.
 
 (* ================================ the session ================================ *)
@@ -404,57 +431,79 @@ Definition free_calls (hs : bool) (ms : list rmsg) (m : N) (term : option N) : N
 Lemma sim_new i m term : sim i (wtr_new (Some i) m term) (wtr_new None m term).
 Proof. unfold sim, intact, wtr_new. cbn. repeat split; lia. Qed.
 
-Lemma done_raw_le i sizes : forall w0 n, n <= done_raw i sizes w0 n <= n + N.of_nat (length sizes).
+Lemma hit_peer_received i wf w0 : hit_peer i wf w0 ->
+  wt_received wf = received_at (wt_m wf) (wt_term wf) (rev (wt_peer w0)) i.
 Proof.
-  induction sizes as [|k r IH]; intros w0 n; cbn [done_raw length]; [lia|].
-  destruct (wt_calls _ <=? i); [|lia]. specialize (IH (snd (copy_bytes (repeat 0 (N.to_nat k)) w0)) (N.succ n)). lia.
+  intros (pre & p & post & E1 & E2 & E3). rewrite received_rev, E3, E1. unfold received_at.
+  replace (N.to_nat i) with (length pre) by lia.
+  rewrite firstn_app_exact, app_nth2, Nat.sub_diag by lia. cbn [nth].
+  rewrite concat_app. cbn [concat]. now rewrite app_nil_r.
 Qed.
 
-Theorem rtmp_write_session_which hs ms i m term :
+(* the session: n, error or not, and what the peer holds, all read off the fault-free run *)
+Theorem rtmp_write_session_peer hs ms i m term :
   let '(n, oe, w) := rtmp_write_session hs ms (wtr_new (Some i) m term) in
+  let w0 := snd (rtmp_write_session hs ms (wtr_new None m term)) in
   n = free_done i hs ms m term /\
-  (oe = None <-> free_calls hs ms m term <= i).
+  (oe = None <-> wt_calls w0 <= i) /\
+  (oe <> None ->
+   wt_received w = received_at (wt_m w) (wt_term w) (rev (wt_peer w0)) i /\ i < wt_calls w0).
 Proof.
-  unfold free_done, free_calls, rtmp_write_session.
+  unfold free_done, rtmp_write_session.
   pose proof (sim_new i m term) as Hs0.
   set (wf0 := wtr_new (Some i) m term) in *. set (w00 := wtr_new None m term) in *.
   assert (P2 : forall wf1 w01 n1, sim i wf1 w01 ->
      let '(n2, e2, b) := rtmp_write_ops (msgs_write_ops DEFCHUNK ms) (bufw_new wf1) n1 in
+     let wz := bw_under (snd (rtmp_write_ops (msgs_write_ops DEFCHUNK ms) (bufw_new w01) n1)) in
      n2 = done_before i (msgs_write_ops DEFCHUNK ms) (bufw_new w01) n1 /\
-     (e2 = None <-> wt_calls (bw_under (snd (rtmp_write_ops (msgs_write_ops DEFCHUNK ms) (bufw_new w01) n1))) <= i)).
+     (e2 = None <-> wt_calls wz <= i) /\
+     (e2 <> None -> broken i (bw_under b) wz)).
   { intros wf1 w01 n1 Hs.
     assert (Hsb : simb i (bufw_new wf1) (bufw_new w01)) by (split; [reflexivity|split; [reflexivity|split; [reflexivity|exact Hs]]]).
     assert (Hc : clean (bufw_new wf1)) by (split; [reflexivity|split; [reflexivity|apply Hs]]).
     pose proof (ops_sim i (msgs_write_ops DEFCHUNK ms) _ _ n1 Hsb Hc eq_refl) as O.
     destruct (rtmp_write_ops (msgs_write_ops DEFCHUNK ms) (bufw_new wf1) n1) as [[n2 e2] b]. destruct O as (On & Oe).
-    split; [exact On|]. destruct e2 as [e|].
-    - split; [discriminate|lia].
-    - split; [intros _|reflexivity]. destruct Oe as (_ & _ & _ & (_ & _ & E & L & _)). lia. }
+    cbn zeta. split; [exact On|]. destruct e2 as [e|].
+    - split; [split; [discriminate|destruct Oe as (_ & L & _); lia]|intros _; exact Oe].
+    - split; [|congruence]. split; [intros _|reflexivity]. destruct Oe as (_ & _ & _ & (_ & _ & E & L & _)). lia. }
+  assert (Fin : forall (w wz : wtr), broken i w wz ->
+     wt_received w = received_at (wt_m w) (wt_term w) (rev (wt_peer wz)) i /\ i < wt_calls wz).
+  { intros w wz (_ & L & Hp & _). split; [now apply hit_peer_received|exact L]. }
   destruct hs.
   - pose proof (raw_sim i [1; 1536; 1536] wf0 w00 0 Hs0) as R.
     destruct (raw_copies [1; 1536; 1536] wf0 0) as [[n1 e1] wf1]. destruct R as (Rn & R0n & R0e & Re).
     destruct (raw_copies [1; 1536; 1536] w00 0) as [[n01 e01] w01] eqn:E0. cbn [fst snd] in *. subst e01.
+    assert (Hi01 : intact w01).
+    { pose proof (raw_fwd [1; 1536; 1536] w00 0 (sim_intact _ _ _ Hs0)) as [Hi _]. rewrite E0 in Hi. exact Hi. }
     destruct e1 as [e|].
-    + destruct (N.leb_spec (wt_calls w01) i) as [H|_]; [lia|]. split; [exact Rn|].
-      split; [discriminate|]. intros H.
-      pose proof (ops_fwd (msgs_write_ops DEFCHUNK ms) (bufw_new w01) n01) as F.
+    + destruct (N.leb_spec (wt_calls w01) i) as [H|_]; [destruct Re as (_ & L & _); lia|]. split; [exact Rn|].
+      pose proof (ops_fwd (msgs_write_ops DEFCHUNK ms) (bufw_new w01) n01 Hi01) as F.
       destruct (rtmp_write_ops (msgs_write_ops DEFCHUNK ms) (bufw_new w01) n01) as [[n2 e2] b]. cbn [snd bufw_new bw_under] in *.
-      assert (Hi : intact w01).
-      { pose proof (raw_fwd [1; 1536; 1536] w00 0 (sim_intact _ _ _ Hs0)) as [Hi _]. rewrite E0 in Hi. exact Hi. }
-      destruct (F Hi) as [_ L]. cbn [snd] in H. lia.
+      pose proof (broken_step i _ _ _ Re F) as Hbr.
+      split; [split; [discriminate|destruct Hbr as (_ & L & _); lia]|]. intros _. now apply Fin.
     + destruct Re as [Hs1 Hn1]. cbn [length] in Hn1, R0n.
       assert (Hle : wt_calls w01 <= i) by (destruct Hs1 as (_ & _ & E & L & _); lia).
       destruct (N.leb_spec (wt_calls w01) i) as [_|H]; [|lia].
       assert (E1 : n01 = n1) by lia. subst n01.
       specialize (P2 wf1 w01 n1 Hs1).
       destruct (rtmp_write_ops (msgs_write_ops DEFCHUNK ms) (bufw_new wf1) n1) as [[n2 e2] b].
-      destruct P2 as [A B].
-      assert (E3 : n1 = 3) by (rewrite Hn1; reflexivity). rewrite E3 in A, B.
-      split; [exact A|].
+      cbn zeta in P2. destruct P2 as (A & B & C).
+      assert (E3 : n1 = 3) by (rewrite Hn1; reflexivity). rewrite E3 in A, B, C.
       destruct (rtmp_write_ops (msgs_write_ops DEFCHUNK ms) (bufw_new w01) 3) as [[n3 e3] b3] eqn:E4.
-      change (0 + N.of_nat 3) with 3. rewrite E4. cbn [snd] in *. exact B.
+      change (0 + N.of_nat 3) with 3. rewrite E4. cbn [snd] in *. split; [exact A|]. split; [exact B|]. intros Hne. apply Fin, C, Hne.
   - specialize (P2 wf0 w00 0 Hs0).
     destruct (rtmp_write_ops (msgs_write_ops DEFCHUNK ms) (bufw_new wf0) 0) as [[n2 e2] b].
-    destruct P2 as [A B]. split; [exact A|].
-    destruct (rtmp_write_ops (msgs_write_ops DEFCHUNK ms) (bufw_new w00) 0) as [[n3 e3] b3]. exact B.
+    cbn zeta in P2. destruct P2 as (A & B & C).
+    destruct (rtmp_write_ops (msgs_write_ops DEFCHUNK ms) (bufw_new w00) 0) as [[n3 e3] b3]. cbn [snd] in *.
+    split; [exact A|]. split; [exact B|]. intros Hne. apply Fin, C, Hne.
+Qed.
+
+Corollary rtmp_write_session_which hs ms i m term :
+  let '(n, oe, w) := rtmp_write_session hs ms (wtr_new (Some i) m term) in
+  n = free_done i hs ms m term /\
+  (oe = None <-> free_calls hs ms m term <= i).
+Proof.
+  pose proof (rtmp_write_session_peer hs ms i m term) as H. unfold free_calls.
+  destruct (rtmp_write_session hs ms (wtr_new (Some i) m term)) as [[n oe] w]. cbn zeta in H.
+  destruct H as (A & B & _). auto.
 Qed.
